@@ -185,6 +185,44 @@ def _bi_entry(rng, ok):
     return {"name": name, "var": var}
 
 
+XNAME = "x.Sub"
+LANG = {"n": "language", "d": None, "r": "uima.cas.String", "e": None, "m": None}
+BEGIN = {"n": "begin", "d": None, "r": "uima.cas.Integer", "e": None, "m": None}
+
+
+def _gen_extra(rng, types, dfe):
+    kind = rng.choice(["redef_eq", "redef_eq", "redef_eq", "redef_diff", "redef_diff", "range", "elem", "super", "final"])
+    fresh = {"n": "zz", "d": rng.choice([None, "fresh"]), "r": "uima.cas.String", "e": None, "m": None}
+    if kind in ("redef_eq", "redef_diff"):
+        cands = [(t["n"], f) for t in types for f in t["f"]] + [(DOCANN, f) for f in dfe] + [(DOCANN, LANG), (ANN, BEGIN)]
+        sup, f = rng.choice(cands)
+        g = dict(f)
+        g["m"] = rng.choice([None, True, False])           # Feature.__eq__ does not look at the flag
+        if kind == "redef_eq":
+            if g["e"] is None and rng.random() < 0.3:
+                g["e"] = "uima.cas.TOP"                    # absent = TOP
+        else:
+            how = rng.choice(["range", "descr", "elem"])
+            if how == "range":
+                g["r"] = "uima.cas.Integer" if g["r"] != "uima.cas.Integer" else "uima.cas.String"
+            elif how == "descr":
+                g["d"] = "another description"
+            else:
+                g["e"] = ANN if g["e"] in (None, "uima.cas.TOP") else None
+        feats = [g, fresh] if rng.random() < 0.5 else [fresh, g]
+        return {"kind": kind, "decl": {"n": XNAME, "d": None, "s": sup, "f": feats}}
+    if kind == "range":
+        return {"kind": kind, "decl": {"n": XNAME, "d": None, "s": ANN, "f": [dict(fresh, r="no.Such")]}}
+    if kind == "elem":
+        return {"kind": kind, "decl": {"n": XNAME, "d": None, "s": ANN, "f": [dict(fresh, r="uima.cas.FSArray", e="no.Such")]}}
+    if kind == "super":
+        return {"kind": kind, "decl": {"n": XNAME, "d": None, "s": "no.Such", "f": [fresh]}}
+    return {"kind": kind, "decl": {"n": XNAME, "d": None, "s": rng.choice(FINAL), "f": [fresh]}}
+
+
+XV_EXPECT = {"redef_eq": "ok", "redef_diff": "EValue", "range": "EKey", "elem": "EKey", "super": "EKey", "final": "EValue"}
+
+
 def generate(rng, tier):
     if tier != "search":
         yield {"kind": "table"}
@@ -211,9 +249,18 @@ def generate(rng, tier):
             rev.insert(rng.randint(0, len(rev)), pool_n - 1)
         elif bis and rng.random() < 0.5:
             rev = rev + [nuser]
-        yield {"kind": "ts", "types": types, "da": dfe, "declare_da": declare_da, "seq": seq,
-               "pad": rng.randint(1, 9) if rng.random() < 0.33 else 0, "layout": rng.randint(0, 5),
-               "bi": bis + ([bad] if bad else []), "runs": [ident, perm, rev]}
+        sc = {"kind": "ts", "types": types, "da": dfe, "declare_da": declare_da, "seq": seq,
+              "pad": rng.randint(1, 9) if rng.random() < 0.33 else 0, "layout": rng.randint(0, 5),
+              "bi": bis + ([bad] if bad else []), "runs": [ident, perm, rev]}
+        if rng.random() < 0.4:
+            # a fourth descriptor outside the well-formed ones: all user declarations, shuffled, plus one more type that
+            # redefines an inherited feature (equally: dropped; differently: ValueError), refers to an undeclared type
+            # (KeyError) or inherits from a final array type (ValueError)
+            sc["xv"] = _gen_extra(rng, types, dfe)
+            sel = ident + [pool_n]
+            rng.shuffle(sel)
+            sc["runs"].append(sel)
+        yield sc
 
 
 # ------------------------------------------------------------------------------------------------ abstract descriptors
@@ -281,6 +328,9 @@ def pool_of(sc):
         pool.append({"n": p(DOCANN), "d": None, "s": p(ANN), "f": [feat(f) for f in [lang] + sc["da"]]})
     for b in sc["bi"]:
         t = _bi_decl(b)
+        pool.append({"n": p(t["n"]), "d": t["d"], "s": p(t["s"]), "f": [feat(f) for f in t["f"]]})
+    if sc.get("xv"):
+        t = sc["xv"]["decl"]
         pool.append({"n": p(t["n"]), "d": t["d"], "s": p(t["s"]), "f": [feat(f) for f in t["f"]]})
     return pool
 
@@ -414,9 +464,12 @@ def _own_order(decls):
 
 
 def _load_run(cassis, text):
+    import warnings
     from cassis import load_typesystem
     try:
-        ts = load_typesystem(text)
+        with warnings.catch_warnings():
+            warnings.simplefilter("ignore")
+            ts = load_typesystem(text)
     except Exception as e:  # noqa
         return {"res": _err_kind(e), "exc": type(e).__name__}
     d = dump_ts(cassis, ts)
@@ -553,7 +606,9 @@ def oracle(cassis, sc, obs):
         return f"roundtrip-load: load_typesystem(ts.to_xml()) raised {rt['exc']}"
     if _content(rt["dump"]) != exp:
         return "roundtrip-content: load_typesystem(ts.to_xml()) declares something else: " + _diff(_content(rt["dump"]), exp)
-    for what, r in [("load_typesystem(ts.to_xml())", rt)] + [("a harness-written descriptor", r) for r in obs["runs"]]:
+    nx = len(sc["types"]) + (1 if sc["declare_da"] else 0) + len(sc["bi"])
+    for what, r in [("load_typesystem(ts.to_xml())", rt)] + [("a harness-written descriptor", r)
+                                                             for sel, r in zip(sc["runs"], obs["runs"]) if nx not in sel]:
         if r["res"] != "ok":
             continue
         m = _untrimmed(r["dump"])
@@ -573,7 +628,22 @@ def oracle(cassis, sc, obs):
         return "reemit-bytes: re-emitting the loaded type system twice gives different bytes"
     nuser = len(sc["types"]) + (1 if sc["declare_da"] else 0)
     by_sel = {}
+    xi = nuser + len(sc["bi"])                                 # pool index of the extra declaration, if any
     for sel, r in zip(sc["runs"], obs["runs"]):
+        if xi in sel:
+            xv = sc["xv"]
+            want = XV_EXPECT[xv["kind"]]
+            if r["res"] != want:
+                return (f"extra-{xv['kind']}: a descriptor with one more type ({xv['kind']}) gave "
+                        f"{r.get('exc', r['res'])}, expected {want}")
+            if want == "ok":
+                exp2 = dict(exp)
+                t = xv["decl"]
+                exp2[XNAME] = (None, t["s"], [(f["n"], _nd(f["d"]), f["r"], f["e"], f["m"]) for f in t["f"] if f["n"] == "zz"])
+                if _content(r["dump"]) != exp2:
+                    return "extra-redef_eq-content: an equal redefinition of an inherited feature was not dropped: " + \
+                           _diff(_content(r["dump"]), exp2)
+            continue
         bad = [sc["bi"][i - nuser] for i in sel if i >= nuser and sc["bi"][i - nuser]["var"] in BI_BAD]
         if bad:
             if r["res"] == "ok":
@@ -748,11 +818,40 @@ def _drop_type(sc, name):
     for sel in c["runs"]:
         runs.append([remap[i] if i < n_old else i - shift for i in sel if i >= n_old or i in remap])
     c["runs"] = runs
+    if c.get("xv") and (c["xv"]["decl"]["s"] in gone or any(f["r"] in gone or f["e"] in gone for f in c["xv"]["decl"]["f"])):
+        xi = len(c["types"]) + (1 if c["declare_da"] else 0) + len(c["bi"])
+        c["runs"] = [sel for sel in c["runs"] if xi not in sel]
+        del c["xv"]
+    return c
+
+
+def _noxv(c):
+    """without the extra declaration (edits of features or descriptions would change what it redefines)"""
+    if c.get("xv"):
+        xi = len(c["types"]) + (1 if c["declare_da"] else 0) + len(c["bi"])
+        c["runs"] = [sel for sel in c["runs"] if xi not in sel]
+        del c["xv"]
     return c
 
 
 def shrink_candidates(sc):
     if sc["kind"] != "ts":
+        return
+    if sc.get("xv"):
+        yield _noxv(json.loads(json.dumps(sc)))
+        sc = _noxv(json.loads(json.dumps(sc))) if len(sc["runs"]) < 4 else sc
+    if sc.get("xv"):
+        # the extra run is what fails, or not: try without the other runs, then shrink only what does not touch it
+        for t in reversed(sc["types"]):
+            yield _drop_type(sc, t["n"])
+        for i in range(len(sc["runs"]) - 1):
+            c = json.loads(json.dumps(sc))
+            del c["runs"][i]
+            yield c
+        if sc["pad"]:
+            yield dict(json.loads(json.dumps(sc)), pad=0)
+        if sc["layout"]:
+            yield dict(json.loads(json.dumps(sc)), layout=0)
         return
     for t in reversed(sc["types"]):
         yield _drop_type(sc, t["n"])
